@@ -15,10 +15,14 @@
 (* Each run requests a hash set (HashSets); an entry records the set it    *)
 (* was made with.  ShortcutChecksHashes = FALSE reproduces the short-cut   *)
 (* that skipped a file without looking at the entry's hash set (F27).      *)
+(* A file may also ARRIVE with an old mtime together with an entry for it  *)
+(* in a Manifest that is not part of the tree yet (field ad, "adopted"):   *)
+(* the entry claims some content, right or wrong (F52).                    *)
 (***************************************************************************)
 EXTENDS Naturals, Integers, Sequences, FiniteSets, TLC
 
-CONSTANTS Files, MaxClock, TzOffsets, UtcRead, MaxRounds, HashSets, ShortcutChecksHashes
+CONSTANTS Files, MaxClock, TzOffsets, UtcRead, MaxRounds, HashSets, ShortcutChecksHashes,
+          TrustAdopted    \* TRUE = historical: the short-cut also trusts entries of a Manifest adopted in this run (F52)
 
 Contents == {"a", "b", "c2"}                 \* a, b: equal size; c2: another size
 SizeOf(c) == IF c = "c2" THEN 2 ELSE 1
@@ -36,13 +40,14 @@ VARIABLES clock,      \* half seconds
 vars == <<clock, tz, tree, inc, full, ts, run, dirty, excused, rounds>>
 
 H0 == CHOOSE h \in HashSets : TRUE
-NoEntry == [c |-> "none", hs |-> H0]
+NoEntry == [c |-> "none", hs |-> H0, ad |-> FALSE]
 Idle == [on |-> FALSE, start |-> 0, last |-> 0, todo |-> {}, prevTs |-> 0, req |-> H0]
 
 Init ==
     /\ clock = 4 /\ tz \in TzOffsets
     /\ tree = [f \in Files |-> [c |-> "a", mt |-> 1]]
-    /\ inc = [f \in Files |-> [c |-> "a", hs |-> H0]] /\ full = [f \in Files |-> [c |-> "a", hs |-> H0]]
+    /\ inc = [f \in Files |-> [c |-> "a", hs |-> H0, ad |-> FALSE]]
+    /\ full = [f \in Files |-> [c |-> "a", hs |-> H0, ad |-> FALSE]]
     /\ ts = 2                                  \* a full update ran at second 2 (half-second 4)
     /\ run = Idle /\ dirty = {} /\ excused = {} /\ rounds = 0
 
@@ -69,6 +74,20 @@ EnvModify == \E f \in Files : \E c \in Contents \cup {"none"} : \E m \in {ts * 2
                  /\ c # tree[f].c
                  /\ Modify(f, c, m)
 
+(* a file arrives (unpacked from an archive, mtime preserved: any time up to now) together with a *)
+(* Manifest of its own that claims content `claim` for it                                          *)
+Ship(f, c, claim, m) ==
+    /\ ~run.on /\ tree[f].c = "none" /\ inc[f].c = "none" /\ full[f].c = "none"
+    /\ m <= clock /\ m >= 0
+    /\ tree' = [tree EXCEPT ![f] = [c |-> c, mt |-> m]]
+    /\ inc' = [inc EXCEPT ![f] = [c |-> claim, hs |-> H0, ad |-> TRUE]]
+    /\ full' = [full EXCEPT ![f] = [c |-> claim, hs |-> H0, ad |-> TRUE]]
+    /\ dirty' = dirty \cup {f}
+    /\ excused' = excused \ {f}                 \* an addition: no precondition on its mtime
+    /\ UNCHANGED <<clock, tz, ts, run, rounds>>
+EnvShip == \E f \in Files : \E c \in {"a", "b"} : \E claim \in {"a", "b"} : \E m \in {ts * 2 - 1, clock} :
+               Ship(f, c, claim, m)
+
 (* ---- the incremental update, one file per step --------------------------- *)
 LastMtime(t) == IF UtcRead THEN t * 2 ELSE (t - tz) * 2     \* in half seconds
 
@@ -85,10 +104,11 @@ HashOne(f) ==
        IF n.c = "none" THEN inc' = [inc EXCEPT ![f] = NoEntry]           \* vanished: entry dropped
        ELSE IF /\ inc[f].c # "none" /\ n.mt <= run.last /\ SizeOf(n.c) = SizeOf(inc[f].c)
                /\ (ShortcutChecksHashes => inc[f].hs = run.req)
-            THEN inc' = inc                                               \* skipped
-            ELSE inc' = [inc EXCEPT ![f] = [c |-> n.c, hs |-> run.req]]
+               /\ (TrustAdopted \/ ~inc[f].ad)
+            THEN inc' = [inc EXCEPT ![f].ad = FALSE]                       \* skipped (the Manifest is part of the tree now)
+            ELSE inc' = [inc EXCEPT ![f] = [c |-> n.c, hs |-> run.req, ad |-> FALSE]]
     /\ full' = [full EXCEPT ![f] = IF tree[f].c = "none" THEN NoEntry     \* the full replica hashes everything
-                                   ELSE [c |-> tree[f].c, hs |-> run.req]]
+                                   ELSE [c |-> tree[f].c, hs |-> run.req, ad |-> FALSE]]
     /\ run' = [run EXCEPT !.todo = run.todo \ {f}]
     /\ dirty' = dirty \ {f}
     /\ UNCHANGED <<clock, tz, tree, ts, excused, rounds>>
@@ -99,7 +119,7 @@ Finish ==
     /\ run' = Idle
     /\ UNCHANGED <<clock, tz, tree, inc, full, dirty, excused, rounds>>
 
-Next == Tick \/ EnvModify \/ Start \/ (\E f \in Files : HashOne(f)) \/ Finish
+Next == Tick \/ EnvModify \/ EnvShip \/ Start \/ (\E f \in Files : HashOne(f)) \/ Finish
 Spec == Init /\ [][Next]_vars
 
 (* ---- properties ---------------------------------------------------------- *)
